@@ -176,7 +176,7 @@ def oracle_state(case):
 # ------------------------------------------------------------------------------------------------ history level
 @st.composite
 def fit_case(draw):
-    s = draw(E.kauri_spec(n_max=20, d_max=3, kinds=("grid", "grid2", "normal", "offset")))
+    s = draw(E.kauri_spec(n_max=20, d_max=3, kinds=("grid", "grid2", "normal", "offset", "ulp", "blobs")))
     s["max_clusters"] = draw(st.sampled_from([1, 2, 2, 3, 3, 4, 6]))
     s["d"] = s["x"]["d"] = min(s["d"], s["n"])
     if s["max_features"] is not None:
